@@ -154,6 +154,20 @@ def streams(rng, tier):
             env = G.rand_env(rng); env["os_name"] = "y"
             out.append(Case("precedence", "k.eval", [s, "M"] + G.env_args(env)))
     # 5b. long or-lists / and-lists (4..40 atoms on one level), and the environment laws on deeper formulas
+    # extra names with non-ASCII cased letters (the name model covers ASCII and a few look-alikes only: a law with the harness's own folding)
+    import re as _re
+    fold = lambda x: _re.sub(r"[-_.]+", "-", x).lower()
+    BASES = ["\u00fcber-tools", "caf\u00e9", "kelvin-units", "\u0394elta.x", "na\u00efve_pkg", "\u0416uk", "stra\u00dfe", "\u01c5emal", "\u0130stanbul", "a-b"]
+    def respell(x):
+        y = "".join(ch.upper() if rng.random() < 0.4 and len(ch.upper()) == 1 and ch.upper().lower() == ch else ch for ch in x)
+        y = _re.sub(r"[-_.]", lambda m_: rng.choice(["-", "_", ".", "--", "-_"]), y)
+        if rng.random() < 0.3 and "k" in y: y = y.replace("k", "\u212a", 1)
+        return y
+    for _ in range(150 if q else 3000):
+        a = rng.choice(BASES); b = respell(a) if rng.random() < 0.7 else respell(rng.choice(BASES))
+        a2 = respell(a)
+        if "\u03a3" in a2 + b or "\u03c2" in a2 + b: continue                 # final-sigma: position dependent lower-casing, outside this law
+        out.append(Case("law-extra-unicode", "law.k.extra", [a2, b, "T" if fold(a2) == fold(b) else "F"], kind="law"))
     for n in ([1300] if q else [1300, 3000, 6000]):
         # very long FLAT formulas: length must not turn into recursion depth
         f = G.long_expr(rng, n); s = G.render(rng, f)
